@@ -318,6 +318,30 @@ where
             Some(Err(e)) => format!("err {}", kind_str(&e)),
           }
         }
+        // R: drain the iterator until it yields nothing (or an error); items joined by " , "
+        "R" => {
+          let mut items: Vec<String> = Vec::new();
+          let mut guard = 0usize;
+          loop {
+            guard += 1;
+            if guard > 20_000_000 {
+              items.push("hang".to_string());
+              break;
+            }
+            match (&mut d).next() {
+              None => break,
+              Some(Ok(DecompressedItem::Flags(f))) => items.push(format!("flags {}", flags_str(&f))),
+              Some(Ok(DecompressedItem::ChunkMetadata(m))) => items.push(format!("meta {}", meta_str(&m))),
+              Some(Ok(DecompressedItem::Numbers(v))) => items.push(format!("nums {}", vals_str(&v))),
+              Some(Ok(DecompressedItem::Footer)) => items.push("footer".to_string()),
+              Some(Err(e)) => {
+                items.push(format!("err {}", kind_str(&e)));
+                break;
+              }
+            }
+          }
+          if items.is_empty() { "drained".to_string() } else { format!("drained {}", items.join(" , ")) }
+        }
         "F" => {
           d.free_compressed_memory();
           "ok".to_string()
